@@ -8,6 +8,8 @@ CONSTANTS
  SubjSel = {"same"}
  Spells = {"dig", "both"}
  Dopts = {"check", "man"}
+ Inits <- InitsNone
+ NAs <- NAsNone
  Script <- ScriptDD
  SerialPrefix = 2
  ObsPolicy = "end"
